@@ -462,10 +462,19 @@ fn main() {
         }
       }
       // binary operations over all ordered pairs of the first states
+      // pairs: the first (shallowest) states plus states spread over the rest of the search order, so
+      // that trees of different heights and different values for the same key meet
       let pair_n = states.len().min(if thorough { 120 } else { 45 });
+      let mut pair_idx: Vec<usize> = (0..pair_n * 2 / 3).collect();
+      let rest = states.len() - pair_idx.len();
+      let want_more = pair_n - pair_idx.len();
+      if want_more > 0 {
+        let st = (rest / want_more).max(1);
+        pair_idx.extend((pair_idx.len()..states.len()).step_by(st).take(want_more));
+      }
       let mut pair_checks = 0u64;
-      for a in 0..pair_n {
-        for b in 0..pair_n {
+      for &a in &pair_idx {
+        for &b in &pair_idx {
           let (va, ma, pa) = &states[a];
           let (vb, mb, pb) = &states[b];
           let ctx = format!("{universe_name} keys; A = {} ; B = {}", pa.iter().map(|o| o.describe()).collect::<Vec<_>>().join("."), pb.iter().map(|o| o.describe()).collect::<Vec<_>>().join("."));
@@ -580,19 +589,25 @@ fn main() {
       let mut ladder_checks = 0u64;
       let mut built: Vec<(String, Value, BTreeMap<i32, i32>)> = vec![];
       for n in &sizes {
-        for (bname, order) in [
+        // values depend on the build order (10 x key + build index), so that two ladder maps disagree
+        // on the value of every shared key and the binary operations show whose value was kept
+        for (bi, (bname, order)) in [
           ("ascending", (1..=*n).collect::<Vec<i32>>()),
           ("descending", (1..=*n).rev().collect::<Vec<i32>>()),
           ("outside-in", (0..*n).map(|i| if i % 2 == 0 { 1 + i / 2 } else { *n - i / 2 }).collect::<Vec<i32>>()),
-        ] {
+        ]
+        .into_iter()
+        .enumerate()
+        {
+          let bi = bi as i32;
           let mut v = empty.clone();
           let mut model: BTreeMap<i32, i32> = BTreeMap::new();
           let mut ok = true;
           for k in &order {
-            match apply_map_op(&mut c, &v, &MapOp::Insert(*k, *k * 10)) {
+            match apply_map_op(&mut c, &v, &MapOp::Insert(*k, *k * 10 + bi)) {
               Ok(nv) => {
                 v = nv;
-                model.insert(*k, *k * 10);
+                model.insert(*k, *k * 10 + bi);
               }
               Err(e) => {
                 violations.push(("map:insert:abnormal-ending".into(), format!("insert({k}) ended with {e} [{bname} build of {n} keys]"), json!({"collection": "Map", "build": bname, "n": n})));
@@ -605,7 +620,7 @@ fn main() {
             continue;
           }
           let keys_here: Vec<i32> = (0..=*n + 1).collect();
-          let ctx = format!("size ladder: {bname} inserts of 1..{n} (value = 10 x key)");
+          let ctx = format!("size ladder: {bname} inserts of 1..{n} (value = 10 x key + {bi})");
           for (sig, msg) in check_map_state(&mut c, &v, &model, &keys_here, &ctx) {
             violations.push((sig, msg, json!({"collection": "Map", "build": bname, "n": n})));
           }
@@ -616,7 +631,12 @@ fn main() {
         }
       }
       // binary operations between big maps of different shapes and sizes
-      let picks: Vec<usize> = (0..built.len()).step_by((built.len() / 14).max(1)).collect();
+      // the stride is kept coprime with 3 so that the picks mix the three build orders (and so the values)
+      let mut stride = (built.len() / 14).max(1);
+      if stride % 3 == 0 {
+        stride += 1;
+      }
+      let picks: Vec<usize> = (0..built.len()).step_by(stride).collect();
       for a in &picks {
         for b in &picks {
           let (na, va, ma) = &built[*a];
@@ -636,6 +656,31 @@ fn main() {
               }
             }
             Err(e) => violations.push(("map:union:abnormal-ending".into(), format!("union ended with {e} [{ctx}]"), json!({"collection": "Map"}))),
+          }
+          // customizedUnion with a merger that observes (key, value of this, value of other) in order
+          let f = c.h("unionMerger", vec![]).unwrap();
+          match c.m(va, "customizedUnion", vec![vb.clone(), f]) {
+            Ok(x) => {
+              let got = ents(&decode(&x));
+              let mut want: BTreeMap<i32, i32> = BTreeMap::new();
+              for k in ma.keys().chain(mb.keys()) {
+                match (ma.get(k), mb.get(k)) {
+                  (Some(x), Some(y)) => {
+                    if x != y {
+                      want.insert(*k, *x);
+                    }
+                  }
+                  (Some(x), None) | (None, Some(x)) => {
+                    want.insert(*k, *x);
+                  }
+                  _ => {}
+                }
+              }
+              if got != want.iter().map(|(k, x)| (*k, *x)).collect::<Vec<_>>() {
+                violations.push(("map:customizedUnion".into(), format!("customizedUnion differs from the model [{ctx}]"), json!({"collection": "Map", "A": na, "B": nb})));
+              }
+            }
+            Err(e) => violations.push(("map:customizedUnion:abnormal-ending".into(), format!("customizedUnion ended with {e} [{ctx}]"), json!({"collection": "Map"}))),
           }
           let f = c.h("merger", vec![]).unwrap();
           match c.m(va, "merge", vec![vb.clone(), f]) {
